@@ -73,6 +73,14 @@ class MergeDecisionBuilder(object):
         for d in self.decisions:
             if "strategy" in d:
                 del d["strategy"]
+            if d.action == "take_max":
+                # 'take_max' is not an action of the published merge decision
+                # format, express its outcome as a custom diff instead
+                value = base
+                for key in d.common_path:
+                    value = value[key]
+                d.custom_diff = resolve_action(value, d)
+                d.action = "custom"
         return sorted(self.decisions, key=_sort_key, reverse=True)
 
     def extend(self, decisions):
